@@ -228,3 +228,75 @@ Print Assumptions c07_trigger_ok_every_trace.
 Print Assumptions c07_idle_silent_nonvacuous.
 Print Assumptions c07_trigger_ok_nonvacuous.
 Print Assumptions c07_pre_monitor_refuted.
+
+(* ---- the monitored precondition, exactly (Conn/C07_Dist.v) ---- *)
+From Utp Require Import Rx.Rx_NoEof Conn.C07_Dist.
+
+(* the invariant behind it: initial, kept by every event after which the trace goes on *)
+Theorem c07_dist_inv_new : forall (CC : Type) (cci : cc_iface CC) mk c (s : vsock CC),
+  0 <= vc_remote_seq c < M16 -> vsock_new cci mk c = Some s -> DI s.
+Proof. exact (@DI_vsock_new). Qed.
+
+Theorem c07_dist_inv_step : forall (CC : Type) (cci : cc_iface CC) (s : vsock CC) o,
+  DI s -> poll_finished (vstep_out cci s o) = false -> DI (vstep_state cci s o).
+Proof. exact (@DI_vstep_live). Qed.
+
+(* every packet carries the current ack number: the sending path either leaves
+   (last_sent_ack_nr, consumed_but_unacked_bytes) alone or sets them to (last_consumed, 0) *)
+Theorem c07_send_tx_queue_acks : forall (CC : Type) (cci : cc_iface CC) (s : vsock CC),
+  match send_tx_queue cci s with
+  | SOk s' _ | SErr s' _ => sa s s'
+  | SPanic => True
+  end.
+Proof. exact (@send_tx_queue_sa). Qed.
+
+Theorem c07_maybe_send_ack_acks : forall (CC : Type) (s : vsock CC),
+  match maybe_send_ack s with
+  | SOk s' _ | SErr s' _ => sa s s'
+  | SPanic => True
+  end.
+Proof. exact (@maybe_send_ack_sa). Qed.
+
+Theorem c07_dist_ok_every_step : forall (CC : Type) (cci : cc_iface CC) cfg (s : vsock CC) o,
+  DI s -> c07_dist_ok cfg (VSock_Lemmas.fstep_of cci s o) = true.
+Proof. exact (@c07_dist_ok_step). Qed.
+
+Theorem c07_dist_ok_every_trace : forall (CC : Type) (cci : cc_iface CC) (cfg : vconfig)
+    (mk : Z -> Z -> CC) (c : vconfig) (s0 : vsock CC) (ops : list vop),
+  0 <= vc_remote_seq c < M16 -> vsock_new cci mk c = Some s0 ->
+  forallb (c07_dist_ok cfg) (ftrace cci s0 ops) = true.
+Proof. exact (@C07_Dist.c07_dist_ok_every_trace). Qed.
+
+Theorem c07_pre_monitor_g_every_trace : forall (CC : Type) (cci : cc_iface CC) (cfg : vconfig)
+    (mk : Z -> Z -> CC) (c : vconfig) (s0 : vsock CC) (ops : list vop),
+  0 <= vc_remote_seq c < M16 -> vsock_new cci mk c = Some s0 ->
+  forallb (c07_pre_monitor_g cfg) (ftrace cci s0 ops) = true.
+Proof. exact (@C07_Dist.c07_pre_monitor_g_every_trace). Qed.
+
+Theorem c07_dist_ok_nonvacuous :
+  exists w cfg ops,
+    vconfig_ok cfg = true /\ 0 <= vc_remote_seq cfg < M16 /\ Forall op_msg_ok ops /\
+    forallb (c07_pre_monitor cfg) (wtrace w cfg ops) = false /\
+    forallb (c07_dist_ok cfg) (wtrace w cfg ops) = true /\
+    forallb (c07_pre_monitor_g cfg) (wtrace w cfg ops) = true /\
+    existsb (fun st => c07_live st && (0 <? f_cbu (fs_post st)) && (f_cbu (fs_post st) <? M16))
+            (wtrace w cfg ops) = true.
+Proof. exact c07_dist_nonvacuous. Qed.
+
+Theorem c07_pre_monitor_g_guard_nonvacuous :
+  exists w cfg ops,
+    vconfig_ok cfg = true /\ 0 <= vc_remote_seq cfg < M16 /\ Forall op_msg_ok ops /\
+    forallb (c07_pre_monitor_g cfg) (wtrace w cfg ops) = true /\
+    existsb (fun st => c07_poll_done st && (0 <? f_cbu (fs_post st)) && (f_cbu (fs_post st) <=? WRAP_TOLERANCE))
+            (wtrace w cfg ops) = true.
+Proof. exact c07_pre_monitor_g_nonvacuous. Qed.
+
+Print Assumptions c07_dist_inv_new.
+Print Assumptions c07_dist_inv_step.
+Print Assumptions c07_send_tx_queue_acks.
+Print Assumptions c07_maybe_send_ack_acks.
+Print Assumptions c07_dist_ok_every_step.
+Print Assumptions c07_dist_ok_every_trace.
+Print Assumptions c07_pre_monitor_g_every_trace.
+Print Assumptions c07_dist_ok_nonvacuous.
+Print Assumptions c07_pre_monitor_g_guard_nonvacuous.
